@@ -54,14 +54,14 @@ theorem render_eraseDate (c : Codec Input Item Node Bytes Date Content) (hd : Da
     `render c w.fmt w.inp kind w.prec date`: skipped (empty name / existing file kept), raised (a creator raised, or the
     empty name reached `tree.write`), or `wrote name b` with `render … = ok b`.  Unconditional: every branch is covered. -/
 theorem C15_write_outcome (c : Codec Input Item Node Bytes Date Content) (st : St Input Node Bytes Date)
-    (i : Nat) (w : Writer Input Node Date) (kind : Kind) (file : Option String) (mode : Mode) (a : Bool) (date : Date)
+    (i : Nat) (w : Writer Input Node Date) (kind : Kind) (file : Option String) (mode : Mode) (a : Answer) (date : Date)
     (hw : st.ws[i]? = some w) :
     (step repaired c st (.write i kind file mode a date)).2 = expected c st w kind file mode a date :=
   writeStep_repaired_outcome c st i w kind file mode a date hw
 
 /-- A write that produced a file: which writer, which name, and that the bytes are `render` of its own arguments. -/
 theorem wrote_repaired (c : Codec Input Item Node Bytes Date Content) (st st' : St Input Node Bytes Date)
-    (i : Nat) (kind : Kind) (file : Option String) (mode : Mode) (a : Bool) (date : Date) (p : String) (b : Bytes)
+    (i : Nat) (kind : Kind) (file : Option String) (mode : Mode) (a : Answer) (date : Date) (p : String) (b : Bytes)
     (h : step repaired c st (.write i kind file mode a date) = (st', .wrote p b)) :
     ∃ w, st.ws[i]? = some w ∧ p = resolveName c w kind file ∧ p ≠ "" ∧
       render c w.fmt w.inp kind w.prec date = .ok b ∧ st'.fs = setFile st.fs p b ∧ st'.gprec = st.gprec := by
@@ -83,17 +83,21 @@ theorem wrote_repaired (c : Codec Input Item Node Bytes Date Content) (st st' : 
       · simp at ho
       · split at ho
         · simp at ho
-        · rename_i b'' hr
-          split at ho
+        · split at ho
           · simp at ho
-          · simp only [Outcome.wrote.injEq] at ho
-            rw [hr, ho.2]
+          · rename_i b'' hr
+            split at ho
+            · simp at ho
+            · simp only [Outcome.wrote.injEq] at ho
+              rw [hr, ho.2]
 
-/-- C15, progress.  A write call on a live writer with a non-empty file name that does not exist yet, or with mode
-    ALWAYS, whose node creators do not raise, DOES produce the file, with content `render` of the writer's own arguments. -/
+/-- C15, progress.  A write call on a live writer with a non-empty file name under which a file can be created, that
+    does not exist yet, or with mode ALWAYS, whose node creators do not raise, DOES produce the file, with content `render`
+    of the writer's own arguments. -/
 theorem C15_progress (c : Codec Input Item Node Bytes Date Content) (st : St Input Node Bytes Date)
-    (i : Nat) (w : Writer Input Node Date) (kind : Kind) (file : Option String) (mode : Mode) (a : Bool) (date : Date)
+    (i : Nat) (w : Writer Input Node Date) (kind : Kind) (file : Option String) (mode : Mode) (a : Answer) (date : Date)
     (b : Bytes) (hw : st.ws[i]? = some w) (hne : resolveName c w kind file ≠ "")
+    (hcan : st.unwritable (resolveName c w kind file) = false)
     (hfree : mode = .always ∨ st.fs (resolveName c w kind file) = none)
     (hr : render c w.fmt w.inp kind w.prec date = .ok b) :
     (step repaired c st (.write i kind file mode a date)).2 = .wrote (resolveName c w kind file) b ∧
@@ -114,9 +118,13 @@ theorem C15_progress (c : Codec Input Item Node Bytes Date Content) (st : St Inp
           · exact absurd ⟨h3, hk'⟩ hk
         simp [this]
       · simp [h3]
+    have h3 : (resolveName c w kind file ≠ "" && (st.fs (resolveName c w kind file)).isSome && askRaises mode a) = false := by
+      rcases hfree with h | h
+      · subst h; simp [askRaises]
+      · simp [h]
     unfold expected
-    simp only [hr, h1, h2, Bool.false_eq_true, if_false]
-    simp [hne]
+    simp only [hr, h1, h2, h3, Bool.false_eq_true, if_false]
+    simp [hne, hcan]
   rw [he] at ho
   refine ⟨ho, ?_⟩
   obtain ⟨_, _, hrest⟩ := writeStep_shape repaired c st i kind file mode a date _ rfl
@@ -133,7 +141,7 @@ theorem C15_progress (c : Codec Input Item Node Bytes Date Content) (st : St Inp
 /-- C15, progress (exceptions).  If a node creator raises for the writer's own arguments, a call that is not skipped
     raises that exception, and no file changes. -/
 theorem C15_raising_write_keeps_files (sem : Sem) (c : Codec Input Item Node Bytes Date Content)
-    (st : St Input Node Bytes Date) (i : Nat) (kind : Kind) (file : Option String) (mode : Mode) (a : Bool) (date : Date)
+    (st : St Input Node Bytes Date) (i : Nat) (kind : Kind) (file : Option String) (mode : Mode) (a : Answer) (date : Date)
     (e : Err) (h : (step sem c st (.write i kind file mode a date)).2 = .failed e) :
     (step sem c st (.write i kind file mode a date)).1.fs = st.fs := by
   obtain ⟨_, _, hrest⟩ := writeStep_shape sem c st i kind file mode a date _ rfl
@@ -147,7 +155,7 @@ theorem C15_raising_write_keeps_files (sem : Sem) (c : Codec Input Item Node Byt
     lists the constructor arguments in order of construction) and of the date of that call — whatever else was
     constructed or written before, in between or on other writers, at whatever precisions. -/
 theorem C15_output_fn (c : Codec Input Item Node Bytes Date Content) (st : St Input Node Bytes Date)
-    (ops : List (Op Input Date)) (n i : Nat) (kind : Kind) (file : Option String) (mode : Mode) (a : Bool) (date : Date)
+    (ops : List (Op Input Date)) (n i : Nat) (kind : Kind) (file : Option String) (mode : Mode) (a : Answer) (date : Date)
     (p : String) (b : Bytes)
     (hop : ops[n]? = some (.write i kind file mode a date))
     (hout : (runOut repaired c st ops)[n]? = some (.wrote p b)) :
@@ -170,7 +178,7 @@ theorem C15_output_fn (c : Codec Input Item Node Bytes Date Content) (st : St In
     writes); a write call on this writer that produces a file produces `render c fmt inp kind prec date`. -/
 theorem C15_output_fn_explicit (c : Codec Input Item Node Bytes Date Content) (st0 : St Input Node Bytes Date)
     (pre mid : List (Op Input Date)) (fmt : Format) (inp : Input) (prec : Nat)
-    (kind : Kind) (file : Option String) (mode : Mode) (a : Bool) (date : Date)
+    (kind : Kind) (file : Option String) (mode : Mode) (a : Answer) (date : Date)
     (st' : St Input Node Bytes Date) (p : String) (b : Bytes)
     (h : step repaired c
           (runSt repaired c (step repaired c (runSt repaired c st0 pre) (.new fmt inp prec)).1 mid)
@@ -195,7 +203,7 @@ theorem C15_output_fn_explicit (c : Codec Input Item Node Bytes Date Content) (s
     in between, give content that is identical once the date stamp is erased. -/
 theorem C15_twice_same (c : Codec Input Item Node Bytes Date Content) (hd : DateLaw c)
     (st : St Input Node Bytes Date) (mid : List (Op Input Date))
-    (i : Nat) (kind : Kind) (f1 f2 : Option String) (m1 m2 : Mode) (a1 a2 : Bool) (d1 d2 : Date)
+    (i : Nat) (kind : Kind) (f1 f2 : Option String) (m1 m2 : Mode) (a1 a2 : Answer) (d1 d2 : Date)
     (st1 st2 : St Input Node Bytes Date) (p1 p2 : String) (b1 b2 : Bytes)
     (h1 : step repaired c st (.write i kind f1 m1 a1 d1) = (st1, .wrote p1 b1))
     (h2 : step repaired c (runSt repaired c st1 mid) (.write i kind f2 m2 a2 d2) = (st2, .wrote p2 b2)) :
@@ -218,7 +226,7 @@ theorem C15_twice_same (c : Codec Input Item Node Bytes Date Content) (hd : Date
     (on another date) agree once the date stamp is erased. -/
 theorem C15_others_do_not_change (c : Codec Input Item Node Bytes Date Content) (hd : DateLaw c)
     (st : St Input Node Bytes Date) (mid : List (Op Input Date))
-    (i : Nat) (kind : Kind) (f1 f2 : Option String) (m1 m2 : Mode) (a1 a2 : Bool) (d1 d2 : Date)
+    (i : Nat) (kind : Kind) (f1 f2 : Option String) (m1 m2 : Mode) (a1 a2 : Answer) (d1 d2 : Date)
     (st1 st2 : St Input Node Bytes Date) (p1 p2 : String) (b1 b2 : Bytes)
     (h1 : step repaired c st (.write i kind f1 m1 a1 d1) = (st1, .wrote p1 b1))
     (h2 : step repaired c (runSt repaired c st mid) (.write i kind f2 m2 a2 d2) = (st2, .wrote p2 b2)) :
@@ -236,7 +244,7 @@ theorem C15_others_do_not_change (c : Codec Input Item Node Bytes Date Content) 
     one history or of two unrelated ones, whatever their documents hold) they are asked to write. -/
 theorem C15_identical_writers_same (c : Codec Input Item Node Bytes Date Content) (hd : DateLaw c)
     (st st' : St Input Node Bytes Date)
-    (i j : Nat) (w w' : Writer Input Node Date) (kind : Kind) (f1 f2 : Option String) (m1 m2 : Mode) (a1 a2 : Bool)
+    (i j : Nat) (w w' : Writer Input Node Date) (kind : Kind) (f1 f2 : Option String) (m1 m2 : Mode) (a1 a2 : Answer)
     (d1 d2 : Date) (s1 s2 : St Input Node Bytes Date) (p1 p2 : String) (b1 b2 : Bytes)
     (hw : st.ws[i]? = some w) (hw' : st'.ws[j]? = some w') (hargs : w.args = w'.args)
     (h1 : step repaired c st (.write i kind f1 m1 a1 d1) = (s1, .wrote p1 b1))
@@ -256,7 +264,7 @@ theorem C15_identical_writers_same (c : Codec Input Item Node Bytes Date Content
     same arguments give identical content, date stamp aside. -/
 theorem C15_identical_writers_trace (c : Codec Input Item Node Bytes Date Content) (hd : DateLaw c)
     (st : St Input Node Bytes Date) (ops : List (Op Input Date))
-    (n1 n2 i1 i2 : Nat) (kind : Kind) (f1 f2 : Option String) (m1 m2 : Mode) (a1 a2 : Bool) (d1 d2 : Date)
+    (n1 n2 i1 i2 : Nat) (kind : Kind) (f1 f2 : Option String) (m1 m2 : Mode) (a1 a2 : Answer) (d1 d2 : Date)
     (p1 p2 : String) (b1 b2 : Bytes)
     (hop1 : ops[n1]? = some (.write i1 kind f1 m1 a1 d1)) (hop2 : ops[n2]? = some (.write i2 kind f2 m2 a2 d2))
     (hout1 : (runOut repaired c st ops)[n1]? = some (.wrote p1 b1))
@@ -276,7 +284,7 @@ theorem C15_identical_writers_trace (c : Codec Input Item Node Bytes Date Conten
     (the reader does not raise) — to `proj` of the arguments its writer was constructed with. -/
 theorem C15_reads_back (c : Codec Input Item Node Bytes Date Content) (proj : Format → Input → Kind → Nat → Content)
     (hr : ReadLaw c proj) (st : St Input Node Bytes Date) (ops : List (Op Input Date))
-    (n i : Nat) (kind : Kind) (file : Option String) (mode : Mode) (a : Bool) (date : Date) (p : String) (b : Bytes)
+    (n i : Nat) (kind : Kind) (file : Option String) (mode : Mode) (a : Answer) (date : Date) (p : String) (b : Bytes)
     (hop : ops[n]? = some (.write i kind file mode a date))
     (hout : (runOut repaired c st ops)[n]? = some (.wrote p b)) :
     ∃ fmt inp prec, (argsOf st ++ newsOf ops)[i]? = some (fmt, inp, prec) ∧ c.read b = some (proj fmt inp kind prec) := by
@@ -287,7 +295,7 @@ theorem C15_reads_back (c : Codec Input Item Node Bytes Date Content) (proj : Fo
     (any dates, anything in between) both read back, and to the same value. -/
 theorem C15_read_back_same (c : Codec Input Item Node Bytes Date Content) (proj : Format → Input → Kind → Nat → Content)
     (hr : ReadLaw c proj) (st : St Input Node Bytes Date) (ops : List (Op Input Date))
-    (n1 n2 i1 i2 : Nat) (kind : Kind) (f1 f2 : Option String) (m1 m2 : Mode) (a1 a2 : Bool) (d1 d2 : Date)
+    (n1 n2 i1 i2 : Nat) (kind : Kind) (f1 f2 : Option String) (m1 m2 : Mode) (a1 a2 : Answer) (d1 d2 : Date)
     (p1 p2 : String) (b1 b2 : Bytes)
     (hop1 : ops[n1]? = some (.write i1 kind f1 m1 a1 d1)) (hop2 : ops[n2]? = some (.write i2 kind f2 m2 a2 d2))
     (hout1 : (runOut repaired c st ops)[n1]? = some (.wrote p1 b1))
@@ -307,7 +315,7 @@ theorem C15_read_back_same (c : Codec Input Item Node Bytes Date Content) (proj 
     the `finally` puts the saved value back, also when a node creator raises; holds for both variants (`legacy` never
     assigns it in a write). -/
 theorem C15_write_restores_global_precision (sem : Sem) (c : Codec Input Item Node Bytes Date Content)
-    (st : St Input Node Bytes Date) (i : Nat) (kind : Kind) (file : Option String) (mode : Mode) (a : Bool) (date : Date) :
+    (st : St Input Node Bytes Date) (i : Nat) (kind : Kind) (file : Option String) (mode : Mode) (a : Answer) (date : Date) :
     (step sem c st (.write i kind file mode a date)).1.gprec = st.gprec :=
   step_gprec_write sem c st i kind file mode a date
 
@@ -322,7 +330,7 @@ theorem C15_global_precision_between_calls (sem : Sem) (c : Codec Input Item Nod
     call that produced a file, the writer's document holds exactly `mkNodes` of this call's objects at the writer's own
     precision (nothing from earlier calls), and the date of this call. -/
 theorem C15_document_after_write (c : Codec Input Item Node Bytes Date Content) (st st' : St Input Node Bytes Date)
-    (i : Nat) (kind : Kind) (file : Option String) (mode : Mode) (a : Bool) (date : Date) (p : String) (b : Bytes)
+    (i : Nat) (kind : Kind) (file : Option String) (mode : Mode) (a : Answer) (date : Date) (p : String) (b : Bytes)
     (h : step repaired c st (.write i kind file mode a date) = (st', .wrote p b)) :
     ∃ w ns, st.ws[i]? = some w ∧ mkNodes (creator c w.fmt w.prec) (itemsOf c w.inp kind) = .ok ns ∧
       st'.ws[i]? = some { w with date := some date, root := ns } := by
@@ -340,21 +348,23 @@ theorem C15_document_after_write (c : Codec Input Item Node Bytes Date Content) 
     · simp at h
     · split at h
       · simp at h
-      · rw [hbf] at h
-        simp only at h
-        split at h
+      · split at h
         · simp at h
-        · have hg : (DocOf st i w (some date) ns).ws[i]? = some { w with date := some date, root := ns } :=
-            setWriter_get st i w _ hw
-          simp only [hg, Prod.mk.injEq] at h
-          rw [← h.1]
-          exact hg
+        · rw [hbf] at h
+          simp only at h
+          split at h
+          · simp at h
+          · have hg : (DocOf st i w (some date) ns).ws[i]? = some { w with date := some date, root := ns } :=
+              setWriter_get st i w _ hw
+            simp only [hg, Prod.mk.injEq] at h
+            rw [← h.1]
+            exact hg
 
 /-! ### Frame conditions and SKIP -/
 
 /-- A write call changes at most the one file it reports. -/
 theorem C15_write_frame (sem : Sem) (c : Codec Input Item Node Bytes Date Content) (st : St Input Node Bytes Date)
-    (i : Nat) (kind : Kind) (file : Option String) (mode : Mode) (a : Bool) (date : Date) (q : String) :
+    (i : Nat) (kind : Kind) (file : Option String) (mode : Mode) (a : Answer) (date : Date) (q : String) :
     (step sem c st (.write i kind file mode a date)).1.fs q = st.fs q ∨
     ∃ b, (step sem c st (.write i kind file mode a date)).2 = .wrote q b := by
   obtain ⟨_, _, h⟩ := writeStep_shape sem c st i kind file mode a date _ rfl
@@ -372,7 +382,7 @@ theorem C15_new_keeps_files (sem : Sem) (c : Codec Input Item Node Bytes Date Co
 /-- C15 (e): with overwrite mode SKIP every existing file is left byte-for-byte untouched (either variant of the code;
     any writer, any file name, also the default name). -/
 theorem C15_skip_untouched (sem : Sem) (c : Codec Input Item Node Bytes Date Content) (st : St Input Node Bytes Date)
-    (i : Nat) (kind : Kind) (file : Option String) (a : Bool) (date : Date) (q : String) (b : Bytes)
+    (i : Nat) (kind : Kind) (file : Option String) (a : Answer) (date : Date) (q : String) (b : Bytes)
     (hq : st.fs q = some b) :
     (step sem c st (.write i kind file .skip a date)).1.fs q = some b := by
   obtain ⟨_, _, h⟩ := writeStep_shape sem c st i kind file .skip a date _ rfl
@@ -392,6 +402,7 @@ def AllSkip : List (Op Input Date) → Prop
   | [] => True
   | .new _ _ _ :: r => AllSkip r
   | .write _ _ _ m _ _ :: r => m = .skip ∧ AllSkip r
+  | .setGlobal _ :: r => AllSkip r
 
 /-- C15 (e), history form: a whole history of constructions and SKIP-mode writes leaves every file that existed at its
     start byte-for-byte untouched. -/
@@ -407,20 +418,23 @@ theorem C15_skip_untouched_run (sem : Sem) (c : Codec Input Item Node Bytes Date
     obtain ⟨hm, hr⟩ := hs
     subst hm
     exact C15_skip_untouched_run sem c r _ q b hr (C15_skip_untouched sem c st i k f a d q b hq)
+  | .setGlobal g :: r, st, q, b, hs, hq => by
+    rw [runSt_cons]
+    exact C15_skip_untouched_run sem c r _ q b hs hq
 
 /-- With SKIP on an existing, named file nothing at all happens: no file, no document, no global changes. -/
 theorem C15_skip_existing_is_noop (sem : Sem) (c : Codec Input Item Node Bytes Date Content) (st : St Input Node Bytes Date)
-    (i : Nat) (kind : Kind) (p : String) (a : Bool) (date : Date) (b : Bytes) (w : Writer Input Node Date)
+    (i : Nat) (kind : Kind) (p : String) (a : Answer) (date : Date) (b : Bytes) (w : Writer Input Node Date)
     (hw : st.ws[i]? = some w) (hp : p ≠ "") (hq : st.fs p = some b) :
     step sem c st (.write i kind (some p) .skip a date) = (st, .skipped) := by
-  simp [step, writeStep, hw, resolveName, hp, hq, keepExisting]
+  simp [step, writeStep, hw, resolveName, hp, hq, keepExisting, askRaises]
 
 /-! ### Non-vacuity, the laws are satisfiable, and the two former defects as theorems about `legacy` -/
 
 section Witness
 
 def symProj (fmt : Format) (inp : SInput) (kind : Kind) (prec : Nat) : SContent :=
-  ⟨fmt, inp.id, kind == .full, match fmt with | .xml => prec | .pb => 0⟩
+  ⟨fmt, inp.id, kind == .full && inp.hasPP, match fmt with | .xml => prec | .pb => 0⟩
 
 /-- The symbolic codec satisfies the date law … -/
 theorem symCodec_dateLaw : DateLaw symCodec := ⟨fun _ _ _ _ => rfl, fun _ _ _ _ => rfl⟩
@@ -429,11 +443,10 @@ theorem symCodec_dateLaw : DateLaw symCodec := ⟨fun _ _ _ _ => rfl, fun _ _ _ 
 theorem symCodec_readLaw : ReadLaw symCodec symProj := by
   constructor
   intro fmt inp kind prec date b h
-  cases fmt <;> cases kind <;>
-    simp only [render, itemsOf, symCodec, mkNodes, creator, dump, List.cons_append, List.nil_append] at h
-  all_goals (
-    revert h
-    cases inp.xmlErr <;> cases inp.pbErr <;> intro h <;> simp at h <;> subst h <;> simp [symCodec, symRead, symProj])
+  obtain ⟨id, name, hasPP, xe, pe⟩ := inp
+  cases fmt <;> cases kind <;> cases hasPP <;> cases xe <;> cases pe <;>
+    simp [render, itemsOf, symCodec, mkNodes, creator, dump] at h <;>
+    (subst h; simp [symCodec, symRead, symProj])
 
 def inA : SInput := { id := 0, name := "A" }
 
@@ -442,14 +455,14 @@ def inBad : SInput := { id := 1, name := "B", xmlErr := some .assert, pbErr := s
 
 def fs0 : String → Option SBytes := fun q => if q = "old.xml" then some (.foreign 7) else none
 
-def st0 : St SInput SNode SBytes String := ⟨4, fs0, []⟩
+def st0 : St SInput SNode SBytes String := ⟨4, fs0, fun q => q == "nodir/x.xml", []⟩
 
 /-- A writer (precision 6), a protobuf writer (precision 2) constructed in between, two writes of the first writer on
     different dates, one write with SKIP on an existing file, one with SKIP on a new name. -/
 def hist : List (Op SInput String) :=
-  [.new .xml inA 6, .write 0 .full (some "a.xml") .always false "d1", .new .pb inA 2,
-   .write 0 .full (some "b.xml") .always false "d2", .write 1 .full (some "old.xml") .skip false "d3",
-   .write 1 .scenarioOnly none .skip false "d4"]
+  [.new .xml inA 6, .write 0 .full (some "a.xml") .always .other "d1", .new .pb inA 2,
+   .write 0 .full (some "b.xml") .always .other "d2", .write 1 .full (some "old.xml") .skip .other "d3",
+   .write 1 .scenarioOnly none .skip .other "d4"]
 
 /-- The hypotheses of the theorems above are met by a concrete history: both writes of writer 0 produce a file, with the
     content the theorems name; the global precision is that of the last constructor throughout. -/
@@ -465,27 +478,42 @@ example : runGprecs repaired symCodec st0 hist = [6, 6, 2, 2, 2, 2] := by decide
 example : (runSt repaired symCodec st0 hist).fs "old.xml" = some (.foreign 7) := by decide
 
 example : AllSkip (Input := SInput) (Date := String)
-    [.new .xml inA 6, .write 0 .full (some "old.xml") .skip false "d"] := ⟨rfl, trivial⟩
+    [.new .xml inA 6, .write 0 .full (some "old.xml") .skip .other "d"] := ⟨rfl, trivial⟩
 
 /-- A raising write in between: the XML writer of `inBad` (precision 9) raises inside the `with`-block after the
     scenario block was appended; the global precision is back at 2 afterwards, no file appears, and the next writes —
     of this writer (scenario only) and of writer 0 — are as they should be. -/
 example : runOut repaired symCodec st0
-      [.new .xml inA 6, .new .xml inBad 9, .new .pb inA 2, .write 1 .full (some "c.xml") .always false "d1",
-       .write 1 .scenarioOnly (some "c.xml") .always false "d2", .write 0 .full (some "a.xml") .always false "d3"] =
+      [.new .xml inA 6, .new .xml inBad 9, .new .pb inA 2, .write 1 .full (some "c.xml") .always .other "d1",
+       .write 1 .scenarioOnly (some "c.xml") .always .other "d2", .write 0 .full (some "a.xml") .always .other "d3"] =
     [.created 0, .created 1, .created 2, .failed .assert,
      .wrote "c.xml" (.file .xml 1 (some "d2") [⟨false, 1, 9⟩]),
      .wrote "a.xml" (.file .xml 0 (some "d3") [⟨false, 0, 6⟩, ⟨true, 0, 6⟩])] ∧
     runGprecs repaired symCodec st0
-      [.new .xml inA 6, .new .xml inBad 9, .new .pb inA 2, .write 1 .full (some "c.xml") .always false "d1",
-       .write 1 .scenarioOnly (some "c.xml") .always false "d2", .write 0 .full (some "a.xml") .always false "d3"] =
+      [.new .xml inA 6, .new .xml inBad 9, .new .pb inA 2, .write 1 .full (some "c.xml") .always .other "d1",
+       .write 1 .scenarioOnly (some "c.xml") .always .other "d2", .write 0 .full (some "a.xml") .always .other "d3"] =
     [6, 9, 2, 2, 2, 2] := by decide
+
+/-- User code assigns the global (`setGlobal 11`), a write into a directory that does not exist raises after the
+    document was built, `input()` raises on ASK over an existing file, an input with an empty planning-problem set: no
+    file appears from the raising calls, the global stays what user code set, and the writer still writes with its own 6. -/
+example : runOut repaired symCodec st0
+      [.new .xml inA 6, .setGlobal 11, .write 0 .full (some "nodir/x.xml") .always .other "d1",
+       .write 0 .full (some "old.xml") .ask .eof "d1", .write 0 .full (some "a.xml") .always .other "d2",
+       .new .xml { id := 2, name := "C", hasPP := false } 3, .write 1 .full none .ask .eof "d3"] =
+    [.created 0, .done, .failed .other, .failed .other,
+     .wrote "a.xml" (.file .xml 0 (some "d2") [⟨false, 0, 6⟩, ⟨true, 0, 6⟩]), .created 1,
+     .wrote "C.xml" (.file .xml 2 (some "d3") [⟨false, 2, 3⟩])] ∧
+    runGprecs repaired symCodec st0
+      [.new .xml inA 6, .setGlobal 11, .write 0 .full (some "nodir/x.xml") .always .other "d1",
+       .write 0 .full (some "old.xml") .ask .eof "d1", .write 0 .full (some "a.xml") .always .other "d2"] =
+    [6, 11, 11, 11, 11] := by decide
 
 /-- Former defect 1 (root element created once in `__init__`): under `legacy` the second write of the same writer object
     holds the content twice (and does not read back) — `C15_twice_same` and `C15_reads_back` fail for `legacy`. -/
 theorem C15_legacy_second_write_doubles :
-    (runOut legacy symCodec st0 [.new .xml inA 6, .write 0 .full (some "a.xml") .always false "d1",
-        .write 0 .full (some "b.xml") .always false "d2"])[2]? =
+    (runOut legacy symCodec st0 [.new .xml inA 6, .write 0 .full (some "a.xml") .always .other "d1",
+        .write 0 .full (some "b.xml") .always .other "d2"])[2]? =
       some (.wrote "b.xml" (.file .xml 0 (some "d2") [⟨false, 0, 6⟩, ⟨true, 0, 6⟩, ⟨false, 0, 6⟩, ⟨true, 0, 6⟩])) ∧
     symCodec.read (.file .xml 0 (some "d2") [⟨false, 0, 6⟩, ⟨true, 0, 6⟩, ⟨false, 0, 6⟩, ⟨true, 0, 6⟩]) = none := by
   decide
@@ -495,16 +523,16 @@ theorem C15_legacy_second_write_doubles :
     `C15_others_do_not_change` fails for `legacy`. -/
 theorem C15_legacy_precision_of_other_writer :
     (runOut legacy symCodec st0 [.new .xml inA 6, .new .pb inA 2,
-        .write 0 .full (some "a.xml") .always false "d1"])[2]? =
+        .write 0 .full (some "a.xml") .always .other "d1"])[2]? =
       some (.wrote "a.xml" (.file .xml 0 (some "d1") [⟨false, 0, 2⟩, ⟨true, 0, 2⟩])) := by decide
 
 /-- … while the code as it is now gives the writer's own precision, once. -/
 theorem C15_repaired_on_the_same_histories :
-    (runOut repaired symCodec st0 [.new .xml inA 6, .write 0 .full (some "a.xml") .always false "d1",
-        .write 0 .full (some "b.xml") .always false "d2"])[2]? =
+    (runOut repaired symCodec st0 [.new .xml inA 6, .write 0 .full (some "a.xml") .always .other "d1",
+        .write 0 .full (some "b.xml") .always .other "d2"])[2]? =
       some (.wrote "b.xml" (.file .xml 0 (some "d2") [⟨false, 0, 6⟩, ⟨true, 0, 6⟩])) ∧
     (runOut repaired symCodec st0 [.new .xml inA 6, .new .pb inA 2,
-        .write 0 .full (some "a.xml") .always false "d1"])[2]? =
+        .write 0 .full (some "a.xml") .always .other "d1"])[2]? =
       some (.wrote "a.xml" (.file .xml 0 (some "d1") [⟨false, 0, 6⟩, ⟨true, 0, 6⟩])) := by decide
 
 end Witness
